@@ -518,6 +518,13 @@ func genSign(r *Runner, prop string) {
 		p := p
 		add("payload-"+p.n, "jws", func(s *signSpec) { s.payload = p.v })
 	}
+	// one object followed by each kind of token the decoder could meet next
+	for i, tr := range []string{"}", "]", " }", "\n]", "}}", "] x", ",", ":", "\"", "0", "null", "{}", "[]", "{", "[", "\x00", "}{\"b\":2}", ",{\"b\":2}", "/**/", "\ufeff"} {
+		tr := tr
+		add(fmt.Sprintf("payload-trailing-%d", i), "jws", func(s *signSpec) { s.payload = `{"a":1}` + tr })
+	}
+	add("payload-leading-closer", "jws", func(s *signSpec) { s.payload = `}{"a":1}` })
+	add("payload-bom", "jws", func(s *signSpec) { s.payload = "\ufeff" + `{"a":1}` })
 	add("payload-object-ws", "", func(s *signSpec) { s.payload = "  {\"a\" : 1 }\n" })
 	add("payload-empty-object", "", func(s *signSpec) { s.payload = "{}" })
 	add("payload-bigint", "", func(s *signSpec) { s.payload = `{"size":12345678901234567890,"f":1.5e300,"n":-0}` })
